@@ -581,8 +581,15 @@ func cmdCheck(args []string) int {
 		fmt.Println("  UNREPRODUCED (engine counterexample not confirmed natively; not reported as violation):", u)
 	}
 
+	// ---- cross-solver self check on a sample of this run's queries
+	xq, xdis := crossCheck(engines)
+	if xdis > 0 {
+		fmt.Printf("  SOLVER-DISAGREEMENT: %d of %d sampled queries answered differently by another solver\n", xdis, xq)
+	}
+
 	// ---- evidence
 	ev := buildEvidence(*prop, *tier, seed, pc, runs, engines, samples, validated, mismatches, knownMatched, unreproduced, violations, time.Since(t0), loadT)
+	ev.doc["coverage"].(map[string]interface{})["solver_crosscheck"] = map[string]int{"queries_replayed_through_z3_4.8.12_z3_5.1_cvc5": xq, "disagreements": xdis}
 	if err := writeEvidence(*prop, ev); err != nil {
 		fmt.Println("cannot write evidence:", err)
 		return 2
@@ -810,4 +817,41 @@ func raceReplay(c *Candidate) bool {
 	cmd.Env = append(os.Environ(), "GORACE=halt_on_error=1 exitcode=66")
 	out, _ := cmd.CombinedOutput()
 	return strings.Contains(string(out), "DATA RACE")
+}
+
+// crossCheck replays a sample of the run's solver queries (in-process Z3 queries
+// rendered as SMT-LIB2, and every query answered by a text back end) through the
+// other installed solvers. A definite answer that differs is a disagreement.
+func crossCheck(engines []*Engine) (queries, disagreements int) {
+	var qs []textQuery
+	for _, e := range engines {
+		qs = append(qs, e.z.Z3Log...)
+		for i, q := range e.z.TextLog {
+			if i < 2 {
+				qs = append(qs, q)
+			}
+		}
+	}
+	if len(qs) > 36 {
+		qs = qs[:36]
+	}
+	solvers := []textSolver{{"z3", []string{"z3", "-in"}}, {"z3-new", []string{"z3-new", "-in"}}, {"cvc5", []string{"cvc5", "--lang=smt2", "--produce-models"}}}
+	type job struct{ q textQuery }
+	results := make(chan int, len(qs))
+	for _, q := range qs {
+		go func(q textQuery) {
+			bad := 0
+			for _, s := range solvers {
+				r, _ := runTextSolver(s, q.Text, 5000)
+				if r != Unknown && r != q.Result {
+					bad = 1
+				}
+			}
+			results <- bad
+		}(q)
+	}
+	for range qs {
+		disagreements += <-results
+	}
+	return len(qs), disagreements
 }
